@@ -108,9 +108,21 @@ Definition run_init (root : node) (sched : list pos) : list N :=
 
 Definition data_eqb (a b : data) : bool := nat_list_eqb (enc_data a) (enc_data b).
 
+(* statement checks evaluated on explored runs: data, outermost nulled positions = visible nulls,
+   every error path and every cancelled/orphaned awaitable at or below a nulled position *)
+Definition outermostb (P : list pos) (p : pos) : bool :=
+  forallb (fun q => negb (prefixb q p) || nat_list_eqb q p) P.
+Definition mem (p : pos) (l : list pos) : bool := existsb (nat_list_eqb p) l.
+Definition subset (a b : list pos) : bool := forallb (fun p => mem p b) a.
+
 Definition agree (ref : option data) (x : st * list ev) : bool :=
   match ref, result_data (fst x) with
-  | Some a, Some b => data_eqb a b
+  | Some a, Some b =>
+      let np := nulled_positions (snd x) in
+      data_eqb a b
+      && subset (filter (outermostb np) np) (dnulls b) && subset (dnulls b) (filter (outermostb np) np)
+      && forallb (fun o => nulled (dnulls b) o) (error_paths (snd x))
+      && forallb (fun p => nulled np p) (cancelled (snd x) ++ orphaned (snd x))
   | _, _ => false
   end.
 
